@@ -40,6 +40,10 @@ class DataModelSpace(data_algebra.data_space.DataSpace):
         if key is None:
             self.n_tmp = self.n_tmp + 1
             key = f"da_temp_{self.n_tmp}"
+            while key in self.keys():
+                # never hand out a name that is already in use
+                self.n_tmp = self.n_tmp + 1
+                key = f"da_temp_{self.n_tmp}"
         assert isinstance(key, str)
         assert isinstance(allow_overwrite, bool)
         assert self.data_model.is_appropriate_data_instance(value)
@@ -92,6 +96,10 @@ class DataModelSpace(data_algebra.data_space.DataSpace):
         if key is None:
             self.n_tmp = self.n_tmp + 1
             key = f"da_temp_{self.n_tmp}"
+            while key in self.keys():
+                # never hand out a name that is already in use
+                self.n_tmp = self.n_tmp + 1
+                key = f"da_temp_{self.n_tmp}"
         assert isinstance(key, str)
         assert isinstance(allow_overwrite, bool)
         if not allow_overwrite:
